@@ -485,8 +485,9 @@ class Report:
             "wall_s": round(time.time() - self.t0, 2),
             "violations": len(self.violations),
         }
-        EVIDENCE.mkdir(exist_ok=True)
-        (EVIDENCE / f"{self.prop_id}.json").write_text(json.dumps(ev, indent=1, default=str) + "\n")
+        if not os.environ.get("VERIF_REPLAY"):  # a replay run re-evaluates one input; it is not evidence
+            EVIDENCE.mkdir(exist_ok=True)
+            (EVIDENCE / f"{self.prop_id}.json").write_text(json.dumps(ev, indent=1, default=str) + "\n")
         for fid, what in sorted(self.known_seen.items()):
             print(f"KNOWN-FINDING: property={self.prop_id} {fid}: {what}")
         if self.harness_errors:
